@@ -8,12 +8,13 @@ open Tree
 /-! ### predicates over all symbolic nodes of a tree -/
 
 mutual
-  /-- Every symbolic node of the tree satisfies `p` on its flags. -/
+  /-- Every symbolic node of the tree — the attribute container of an object included — satisfies
+  `p` on its flags. -/
   def allFlags (p : Flags → Bool) : Tree → Bool
     | .leaf _ => true
     | .dict f items => p f && allFlagsKvs p items
     | .list f items => p f && allFlagsList p items
-    | .obj f _ attrs => p f && allFlagsKvs p attrs
+    | .obj f _ attrs => p f && p f.container && allFlagsKvs p attrs
   def allFlagsList (p : Flags → Bool) : List Tree → Bool
     | [] => true
     | t :: ts => allFlags p t && allFlagsList p ts
@@ -41,7 +42,7 @@ mutual
       exact fun ⟨h1, h2⟩ => ⟨h f h1, allFlagsList_mono h items h2⟩
     | .obj f _ attrs => by
       simp only [allFlags, Bool.and_eq_true]
-      exact fun ⟨h1, h2⟩ => ⟨h f h1, allFlagsKvs_mono h attrs h2⟩
+      exact fun ⟨⟨h1, h1'⟩, h2⟩ => ⟨⟨h f h1, h _ h1'⟩, allFlagsKvs_mono h attrs h2⟩
   theorem allFlagsList_mono {p q : Flags → Bool} (h : ∀ f, p f = true → q f = true) :
       (ts : List Tree) → allFlagsList p ts = true → allFlagsList q ts = true
     | [] => fun _ => rfl
@@ -105,7 +106,15 @@ theorem allFlags_resolve {p : Flags → Bool} :
 
 theorem allFlags_flags {p : Flags → Bool} {t : Tree} {f : Flags}
     (h : allFlags p t = true) (hf : t.flags? = some f) : p f = true := by
-  cases t <;> simp [flags?] at hf <;> subst hf <;> simp only [allFlags, Bool.and_eq_true] at h <;> exact h.1
+  cases t <;> simp [flags?] at hf <;> subst hf <;> simp only [allFlags, Bool.and_eq_true] at h
+  · exact h.1
+  · exact h.1
+  · exact h.1.1
+
+/-- ... and on the flags of the attribute container, for an object. -/
+theorem allFlags_container {p : Flags → Bool} {f : Flags} {c : Nat} {attrs : List (String × Tree)}
+    (h : allFlags p (.obj f c attrs) = true) : p f.container = true := by
+  simp only [allFlags, Bool.and_eq_true] at h; exact h.1.2
 
 /-! ### putting an unchanged child back -/
 
@@ -172,7 +181,7 @@ def RawGuarded (G : Table) : Prop := ∀ ep, modelHasRaw ep = true → (G ep).di
 theorem safe_succ (G : Table) (n : Nat) (ep : EP) :
     safe G (n + 1) ep =
       (if (G ep).overridden then
-        (G ep).directSealed || (!modelHasRaw ep && (modelDelegates ep).all (safe G n))
+        (G ep).directSealed || (!ownGuardRequired ep && !modelHasRaw ep && (modelDelegates ep).all (safe G n))
       else !(G ep).baseMutates && !modelHasRaw ep && (modelDelegates ep).isEmpty) := rfl
 
 theorem rawGuarded_of_allGuarded {G : Table} (h : AllGuarded G) : RawGuarded G := by
@@ -183,6 +192,19 @@ theorem rawGuarded_of_allGuarded {G : Table} (h : AllGuarded G) : RawGuarded G :
   split at h4
   · exact h4
   · cases h4
+
+/-- `Object.__setattr__` / `Object._sym_rebind` carry a sealed guard of their own. -/
+theorem ownGuarded_of_allGuarded {G : Table} (h : AllGuarded G) (ep : EP) (ho : ownGuardRequired ep = true) :
+    (G ep).directSealed = true := by
+  have h4 : safe G (3 + 1) ep = true := h ep
+  rw [safe_succ] at h4
+  simp only [ho, Bool.not_true, Bool.false_and, Bool.and_false, Bool.or_false] at h4
+  split at h4
+  · exact h4
+  · next hov =>
+    -- not overridden: `object.__setattr__` cannot reach symbolic attributes, but then the model body
+    -- still delegates, so `safe` is false
+    cases ep <;> simp [ownGuardRequired] at ho <;> simp [modelDelegates] at h4
 
 theorem guard_prot {G : Table} {env : Env} {f : Flags} {ep : EP}
     (hS : (G ep).directSealed = true) (hp : treatsAsSealed env f = true) :
@@ -231,7 +253,8 @@ have changed anything anyway (absent key / index / value, `setdefault` of a pres
 def benign : Tree → Op → Bool
   | .list _ xs, .lPop i => (normIdx xs.length i).isNone
   | .list _ xs, .lRemove a => (xs.findIdx? (isLeafEq a)).isNone
-  | .list _ _, .lSetItem _ _ | .list _ _, .lSetSlice _ _ _ | .list _ _, .lDelItem _ | .list _ _, .lIAdd _
+  | .list _ _, .lSetItem _ _ | .list _ _, .lSetSlice _ _ _ _ | .list _ _, .lDelItem _ | .list _ _, .lDelSlice _ _ _
+  | .list _ _, .lIAdd _
   | .list _ _, .lIMul _ | .list _ _, .lAppend _ | .list _ _, .lExtend _ | .list _ _, .lInsert _ _
   | .list _ _, .lClear | .list _ _, .lSort | .list _ _, .lReverse => false
   | .dict _ kvs, .dPop k _ => !hasKey k kvs
@@ -250,7 +273,7 @@ def Op.isRebind : Op → Bool
 
 /-- Assignments and deletions through accessors. -/
 def Op.isAccessor : Op → Bool
-  | .lSetItem _ _ | .lSetSlice _ _ _ | .lDelItem _ | .dSetItem _ _ | .dDelItem _ | .dSetAttr _ _
+  | .lSetItem _ _ | .lSetSlice _ _ _ _ | .lDelItem _ | .lDelSlice _ _ _ | .dSetItem _ _ | .dDelItem _ | .dSetAttr _ _
   | .dDelAttr _ | .oSetAttr _ _ => true
   | _ => false
 
